@@ -48,4 +48,13 @@ Plain(a) == ~Has(a, "signer") /\ ~Has(a, "subst") /\ ~Has(a, "nosign") /\ ~Has(a
             /\ ~Has(a, "rem") /\ ~Has(a, "oracle_sub") /\ ~Has(a, "extra_rem")
 
 Ok(e) == e.res = "ok"
+
+\* A transaction whose leading instructions only bring venue state up to date (instructions of the venue programs: no
+\* marginfi state is involved) is judged as its last instruction - on a real cluster that is the only way to use a
+\* venue-backed position once time has passed.
+VenueRefreshOps == {"drift_refresh", "kamino_refresh"}
+Eff(e) ==
+  IF e.ev = "tx" /\ Len(e.a.ixs) >= 2 /\ (\A k \in 1..(Len(e.a.ixs) - 1) : e.a.ixs[k].op \in VenueRefreshOps)
+  THEN [e EXCEPT !.ev = e.a.ixs[Len(e.a.ixs)].op, !.a = e.a.ixs[Len(e.a.ixs)]]
+  ELSE e
 =============================================================================
